@@ -1,6 +1,8 @@
-import MJ.Model.UndefVm
+import MJ.Proofs.Undef
 /-!
 # C12 — stricter undefined modes only add errors; the documented matrix holds
+
+Property theorems only (helper lemmas: `MJ/Proofs/Undef.lean`).
 
 * the helper methods of `UndefinedBehavior` are interpreted from rows regenerated from
   `utils.rs` on every run (`MJ.Gen.undef…`), so `helpers_matrix` / `helper_mono` are re-proved
@@ -17,7 +19,7 @@ by these theorems: for them monotonicity is validated by the differential stream
 namespace MJ.C12
 open MJ.Undef
 
-/-! ## the helpers are the documented table -/
+/-! ## statements -/
 
 /-- fails (with `UndefinedError`) exactly on `bad`, succeeds otherwise -/
 abbrev failsIff (r : Except Err Unit) (bad : Prop) [Decidable bad] : Prop :=
@@ -39,194 +41,6 @@ def HelpersMatrix : Prop :=
   (∀ m k, failsIff (emitChk m k) ((m = .strict ∨ m = .semiStrict) ∧ k = .undef)) ∧
   (∀ m k, failsIff (envFormatChk m k) ((m = .strict ∨ m = .semiStrict) ∧ k = .undef)) ∧
   (∀ m k, failsIff (sliceChk m k) (m = .strict ∧ k ≠ .defined))
-
-theorem helpers_matrix : HelpersMatrix := by
-  refine ⟨?_, ?_, ?_, ?_, ?_, ?_, ?_, ?_⟩
-  · intro m p; cases m <;> cases p <;> decide
-  all_goals (intro m k; cases m <;> cases k <;> decide)
-
-example : handleUndefined .lenient true = .error .undefinedError ∧ handleUndefined .chainable true = .ok () := by
-  decide
-
-/-- a mode-indexed check only adds errors with strictness -/
-abbrev ChkMono (f : Mode → Except Err Unit) : Prop :=
-  ∀ m m', m' ≤ m → f m = .ok () → f m' = .ok ()
-
-/-- `helper_mono`: for `m' ≤ m` in `Chainable ≤ Lenient ≤ SemiStrict ≤ Strict`, whatever a helper
-    accepts under `m` it accepts under `m'` (with the same, mode-independent, `Ok` payload). -/
-theorem helper_mono :
-    (∀ p, ChkMono (handleUndefined · p)) ∧ (∀ k, ChkMono (isTrueChk · k)) ∧
-    (∀ k, ChkMono (assertIterable · k)) ∧ (∀ k, ChkMono (tryIterChk · k)) ∧
-    (∀ k, ChkMono (assertNotUndef · k)) ∧ (∀ k, ChkMono (emitChk · k)) ∧
-    (∀ k, ChkMono (envFormatChk · k)) ∧ (∀ k, ChkMono (sliceChk · k)) := by
-  refine ⟨?_, ?_, ?_, ?_, ?_, ?_, ?_, ?_⟩
-  · intro p m m'; cases m <;> cases m' <;> cases p <;> decide
-  all_goals (intro k m m'; cases m <;> cases m' <;> cases k <;> decide)
-
-example : (Mode.lenient ≤ Mode.strict) ∧ assertIterable .strict .silent = .ok () ∧
-    assertIterable .strict .undef ≠ .ok () ∧ assertIterable .lenient .undef = .ok () := by decide
-
-/-! ## lifting: a run that succeeds under `m` is the same run under every weaker `m'` -/
-
-/-- **mono** (abstract machine): if every step the program can select is `StepMono`, then a run
-    that succeeds under `m` yields the identical final state under every `m' ≤ m`. -/
-theorem mono {σ ε : Type} (M : Machine σ ε)
-    (hstep : ∀ s f, M.next s = some f → StepMono f)
-    (m m' : Mode) (h : m' ≤ m) (n : Nat) (s r : σ) :
-    M.run m n s = .ok r → M.run m' n s = .ok r := by
-  induction n generalizing s with
-  | zero =>
-    intro hr
-    unfold Machine.run at hr ⊢
-    cases hn : M.next s with
-    | none => simpa [hn] using hr
-    | some f => simp [hn] at hr
-  | succ n ih =>
-    intro hr
-    unfold Machine.run at hr ⊢
-    cases hn : M.next s with
-    | none => simpa [hn] using hr
-    | some f =>
-      simp only [hn] at hr ⊢
-      cases hf : f m s with
-      | error e => simp [hf] at hr
-      | ok s' =>
-        simp only [hf] at hr
-        rw [hstep s f hn m m' s s' h hf]
-        exact ih s' hr
-
-/-- the hypothesis of `mono` is satisfiable by a machine that really consults the mode: a
-    one-instruction program printing an undefined succeeds under Lenient and fails under Strict -/
-example : runVm #[.emit] .lenient 5 { stack := [.undef] } = .ok { pc := 1, stack := [], outs := [[""]] } ∧
-    runVm #[.emit] .strict 5 { stack := [.undef] } = .error .undefinedError := by
-  constructor <;> rfl
-
-theorem seqChks_two_mono {f g : Mode → Except Err Unit} (hf : ChkMono f) (hg : ChkMono g) :
-    ChkMono (fun m => seqChks [f m, g m]) := by
-  intro m m' h
-  have hf' := hf m m' h
-  have hg' := hg m m' h
-  simp only [seqChks]
-  cases h1 : f m with
-  | error e => simp [seqChks]
-  | ok u =>
-    cases u
-    rw [hf' h1]
-    cases h2 : g m with
-    | error e => simp [seqChks]
-    | ok u => cases u; rw [hg' h2]; simp [seqChks]
-
-theorem const_mono (r : Except Err Unit) : ChkMono (fun _ => r) := fun _ _ _ h => h
-
-theorem cmpGuard_mono (op : CmpOp) (a b : V) : ChkMono (cmpGuard · op a b) := by
-  obtain ⟨_, _, hI, _, hN, _⟩ := helper_mono
-  unfold cmpGuard
-  cases op <;> first
-    | exact seqChks_two_mono (hN _) (hN _)
-    | exact seqChks_two_mono (hI _) (hN _)
-
-theorem mapInvalid_mono {f : Mode → Except Err Unit} (hf : ChkMono f) : ChkMono (fun m => mapInvalid (f m)) := by
-  intro m m' h hm
-  show mapInvalid (f m') = .ok ()
-  have hm : mapInvalid (f m) = .ok () := hm
-  cases h1 : f m with
-  | error e => rw [h1] at hm; simp [mapInvalid] at hm
-  | ok u => cases u; rw [hf m m' h h1]; rfl
-
-theorem filterGuard_mono (name : String) (args : List V) : ChkMono (filterGuard · name args) := by
-  obtain ⟨hH, hT, hI, hTI, hN, _⟩ := helper_mono
-  intro m m' h
-  unfold filterGuard
-  split <;> first
-    | exact hT _ m m' h
-    | exact hN _ m m' h
-    | exact hTI _ m m' h
-    | exact mapInvalid_mono (hTI _) m m' h
-    | exact fun x => x
-    | (split <;> first | exact hN _ m m' h | exact fun x => x | exact hH _ m m' h)
-
-theorem testGuard_mono (name : String) (args : List V) : ChkMono (testGuard · name args) := by
-  obtain ⟨_, _, hI, _⟩ := helper_mono
-  intro m m' h
-  unfold testGuard
-  split
-  · exact hI _ m m' h
-  · exact fun x => x
-
-/-- every instruction consults the mode only through monotone checks -/
-theorem modeGuard_mono (i : Instr) (s : St) : ChkMono (modeGuard · i s) := by
-  obtain ⟨hH, hT, hI, hTI, hN, hE, hF, hS⟩ := helper_mono
-  intro m m' h
-  unfold modeGuard
-  split
-  · split
-    · exact hF _ m m' h
-    · exact hE _ m m' h
-  · split
-    · exact fun x => x
-    · exact hH _ m m' h
-  · split
-    · exact hH _ m m' h
-    · exact fun x => x
-  · exact hS _ m m' h
-  · exact seqChks_two_mono (hI _) (hN _) m m' h
-  · exact cmpGuard_mono _ _ _ m m' h
-  · exact cmpGuard_mono _ _ _ m m' h
-  · exact hT _ m m' h
-  · exact seqChks_two_mono (hN _) (hN _) m m' h
-  · exact hT _ m m' h
-  · exact hT _ m m' h
-  · exact hT _ m m' h
-  · exact hTI _ m m' h
-  · split
-    · exact filterGuard_mono _ _ m m' h
-    · exact fun x => x
-  · split
-    · exact testGuard_mono _ _ m m' h
-    · exact fun x => x
-  · exact fun x => x
-
-/-- **step_mono**: every modelled VM instruction satisfies `StepMono` -/
-theorem step_mono (i : Instr) : StepMono (fun m s => step m i s) := by
-  intro m m' s s' h hs
-  simp only [step] at hs ⊢
-  cases hg : modeGuard m i s with
-  | error e => simp [hg] at hs
-  | ok u =>
-    cases u
-    have hg' : modeGuard m' i s = .ok () := modeGuard_mono i s m m' h hg
-    rw [hg']
-    simpa [hg] using hs
-
-example : step .strict .not { stack := [.undef] } = .error .undefinedError ∧
-    step .semiStrict .not { stack := [.undef] } = .ok { pc := 1, stack := [.bool true] } := by
-  constructor <;> rfl
-
-/-- **mono_vm**: a run of the VM model on *any* instruction sequence and state that succeeds
-    under `m` ends in the identical state (same output chunks, stack, frames) under every weaker
-    `m'`.  In particular the rendered output is identical. -/
-theorem mono_vm (code : Array Instr) (m m' : Mode) (h : m' ≤ m) (fuel : Nat) (s r : St) :
-    runVm code m fuel s = .ok r → runVm code m' fuel s = .ok r := by
-  apply mono (vm code) _ m m' h
-  intro s f hf
-  simp only [vm] at hf
-  split at hf
-  · cases hf; exact step_mono _
-  · cases hf
-
-theorem mono_vm_output (code : Array Instr) (m m' : Mode) (h : m' ≤ m) (fuel : Nat) (s r : St)
-    (hr : runVm code m fuel s = .ok r) :
-    (runVm code m' fuel s).map St.output = .ok r.output := by
-  rw [mono_vm code m m' h fuel s r hr]; rfl
-
-/-- `{{ u }}{% if u %}x{% endif %}` as compiled: fine under Lenient, an error under SemiStrict -/
-example :
-    let code : Array Instr := #[.lookup "u", .emit, .lookup "u", .jumpIfFalse 5, .emitRaw "x"]
-    (runVm code .lenient 10 {}).map St.output = .ok "" ∧
-    (runVm code .semiStrict 10 {}).map St.output = .error .undefinedError := by
-  constructor <;> decide
-
-/-! ## the documented site matrix on the modelled VM sites -/
 
 def isErr {α : Type} (r : Except Err α) : Prop := r = .error .undefinedError
 
@@ -273,6 +87,114 @@ def SiteMatrix : Prop :=
       step m .emit s = .ok ({ s with stack := r }.write "").next ∧
       step m .pushLoop s = .ok { s with stack := r, frames := { loop := some ([], 0) } :: s.frames }.next ∧
       step m (.jumpIfFalse t) s = .ok { s with stack := r, pc := t })
+
+/-- **C12 on the model** (full strength): (1) any run of the VM model — any instruction sequence,
+    any state, any number of steps — that succeeds under a mode ends in the identical final
+    state, hence with the identical output, under every weaker mode; (2) the helpers are the
+    documented table; (3) the per-site matrix. -/
+def C12_full : Prop :=
+  (∀ (code : Array Instr) (m m' : Mode), m' ≤ m → ∀ (fuel : Nat) (s r : St),
+      runVm code m fuel s = .ok r → runVm code m' fuel s = .ok r) ∧
+  HelpersMatrix ∧ SiteMatrix
+
+/-! ## the helpers are the documented table -/
+
+theorem helpers_matrix : HelpersMatrix := by
+  refine ⟨?_, ?_, ?_, ?_, ?_, ?_, ?_, ?_⟩
+  · intro m p; cases m <;> cases p <;> decide
+  all_goals (intro m k; cases m <;> cases k <;> decide)
+
+example : handleUndefined .lenient true = .error .undefinedError ∧ handleUndefined .chainable true = .ok () := by
+  decide
+
+/-- `helper_mono`: for `m' ≤ m` in `Chainable ≤ Lenient ≤ SemiStrict ≤ Strict`, whatever a helper
+    accepts under `m` it accepts under `m'` (with the same, mode-independent, `Ok` payload):
+    `ChkMono f` is `∀ m m', m' ≤ m → f m = .ok () → f m' = .ok ()`. -/
+theorem helper_mono :
+    (∀ p, ChkMono (handleUndefined · p)) ∧ (∀ k, ChkMono (isTrueChk · k)) ∧
+    (∀ k, ChkMono (assertIterable · k)) ∧ (∀ k, ChkMono (tryIterChk · k)) ∧
+    (∀ k, ChkMono (assertNotUndef · k)) ∧ (∀ k, ChkMono (emitChk · k)) ∧
+    (∀ k, ChkMono (envFormatChk · k)) ∧ (∀ k, ChkMono (sliceChk · k)) := helperMono
+
+example : (Mode.lenient ≤ Mode.strict) ∧ assertIterable .strict .silent = .ok () ∧
+    assertIterable .strict .undef ≠ .ok () ∧ assertIterable .lenient .undef = .ok () := by decide
+
+/-! ## lifting: a run that succeeds under `m` is the same run under every weaker `m'` -/
+
+/-- **mono** (abstract machine): if every step the program can select is `StepMono`, then a run
+    that succeeds under `m` yields the identical final state under every `m' ≤ m`. -/
+theorem mono {σ ε : Type} (M : Machine σ ε)
+    (hstep : ∀ s f, M.next s = some f → StepMono f)
+    (m m' : Mode) (h : m' ≤ m) (n : Nat) (s r : σ) :
+    M.run m n s = .ok r → M.run m' n s = .ok r := by
+  induction n generalizing s with
+  | zero =>
+    intro hr
+    unfold Machine.run at hr ⊢
+    cases hn : M.next s with
+    | none => simpa [hn] using hr
+    | some f => simp [hn] at hr
+  | succ n ih =>
+    intro hr
+    unfold Machine.run at hr ⊢
+    cases hn : M.next s with
+    | none => simpa [hn] using hr
+    | some f =>
+      simp only [hn] at hr ⊢
+      cases hf : f m s with
+      | error e => simp [hf] at hr
+      | ok s' =>
+        simp only [hf] at hr
+        rw [hstep s f hn m m' s s' h hf]
+        exact ih s' hr
+
+/-- the hypothesis of `mono` is satisfiable by a machine that really consults the mode: a
+    one-instruction program printing an undefined succeeds under Lenient and fails under Strict -/
+example : runVm #[.emit] .lenient 5 { stack := [.undef] } = .ok { pc := 1, stack := [], outs := [[""]] } ∧
+    runVm #[.emit] .strict 5 { stack := [.undef] } = .error .undefinedError := by
+  constructor <;> rfl
+
+/-- **step_mono**: every modelled VM instruction satisfies `StepMono` -/
+theorem step_mono (i : Instr) : StepMono (fun m s => step m i s) := by
+  intro m m' s s' h hs
+  simp only [step] at hs ⊢
+  cases hg : modeGuard m i s with
+  | error e => simp [hg] at hs
+  | ok u =>
+    cases u
+    have hg' : modeGuard m' i s = .ok () := modeGuard_mono i s m m' h hg
+    rw [hg']
+    simpa [hg] using hs
+
+example : step .strict .not { stack := [.undef] } = .error .undefinedError ∧
+    step .semiStrict .not { stack := [.undef] } = .ok { pc := 1, stack := [.bool true] } := by
+  constructor <;> rfl
+
+/-- **mono_vm**: a run of the VM model on *any* instruction sequence and state that succeeds
+    under `m` ends in the identical state (same output chunks, stack, frames) under every weaker
+    `m'`.  In particular the rendered output is identical. -/
+theorem mono_vm (code : Array Instr) (m m' : Mode) (h : m' ≤ m) (fuel : Nat) (s r : St) :
+    runVm code m fuel s = .ok r → runVm code m' fuel s = .ok r := by
+  apply mono (vm code) _ m m' h
+  intro s f hf
+  simp only [vm] at hf
+  split at hf
+  · cases hf; exact step_mono _
+  · cases hf
+
+theorem mono_vm_output (code : Array Instr) (m m' : Mode) (h : m' ≤ m) (fuel : Nat) (s r : St)
+    (hr : runVm code m fuel s = .ok r) :
+    (runVm code m' fuel s).map St.output = .ok r.output := by
+  rw [mono_vm code m m' h fuel s r hr]; rfl
+
+/-- `{{ u }}{% if u %}x{% endif %}` as compiled: fine under Lenient, an error under SemiStrict -/
+example :
+    let code : Array Instr := #[.lookup "u", .emit, .lookup "u", .jumpIfFalse 5, .emitRaw "x"]
+    (runVm code .lenient 10 {}).map St.output = .ok "" ∧
+    (runVm code .semiStrict 10 {}).map St.output = .error .undefinedError := by
+  constructor <;> decide
+
+/-! ## the documented site matrix on the modelled VM sites -/
 
 theorem site_matrix : SiteMatrix := by
   refine ⟨?_, ?_, ?_, ?_, ?_, ?_, ?_, ?_, ?_⟩
@@ -353,14 +275,15 @@ theorem vm_sites_as_modelled :
 
 /-! ## full statement -/
 
-/-- C12 on the model: (1) any run of the VM model that succeeds under a mode succeeds with the
-    identical final state — hence identical output — under every weaker mode; (2) the helpers are
-    the documented table; (3) the per-site matrix. -/
-def C12_full : Prop :=
-  (∀ (code : Array Instr) (m m' : Mode), m' ≤ m → ∀ (fuel : Nat) (s r : St),
-      runVm code m fuel s = .ok r → runVm code m' fuel s = .ok r) ∧
-  HelpersMatrix ∧ SiteMatrix
-
 theorem C12_holds : C12_full := ⟨mono_vm, helpers_matrix, site_matrix⟩
+
+/-- the full statement is not vacuous: a strict run that succeeds (and consults the mode at every
+    step: a defined value is printed, tested, iterated) and the same run under Chainable -/
+example :
+    let code : Array Instr := #[.lookup "a", .getAttr "x", .emit, .lookup "a", .jumpIfFalse 6, .emitRaw "t",
+                                .lookup "a", .pushLoop, .iterate 12, .storeLocal "k", .emitRaw "i", .jump 8, .popLoopFrame]
+    let s : St := { ctx := [("a", .map [("x", .int 1)])] }
+    (runVm code .strict 50 s).map St.output = .ok "1ti" ∧ (runVm code .chainable 50 s).map St.output = .ok "1ti" := by
+  constructor <;> decide
 
 end MJ.C12
